@@ -678,10 +678,9 @@ def thorough_cases(ctx, rng):
 
 # pending findings (none): list of (kind, input line) the check would report as KNOWN-FINDING instead of a violation
 PENDING = []
-# pending finding (reported to the coordinator, see DEFECTS.md): XML->WBXML of a binary-flagged element with mixed content
-# (text, child element, text) caches all text until the end tag: the text moves behind the child and everything after the
-# first '=' padding is dropped.  Key proposal: binary-tag-mixed-content-xml2wbxml
-PENDING_KINDS = {"doc_binary_items_mixed_w2x_and_back": "binary-tag-mixed-content-xml2wbxml"}
+# (the former pending finding binary-tag-mixed-content-xml2wbxml, see DEFECTS.md, is repaired in /repo c0648d3: its shape
+# `doc_binary_items_mixed_w2x_and_back` is an ordinary case again and a recurrence is a violation)
+PENDING_KINDS = {}
 
 
 def run(ctx):
@@ -704,7 +703,7 @@ def run(ctx):
         "outside C12); ds:KeyValue is exercised WBXML->XML and WBXML->tree->WBXML",
     ]
     bad = common.forbidden_scan()
-    cres = common.coq_property(PID)
+    cres = common.coq_properties([PID, "X_typed"])
     common.proof_coverage(ctx, cres, extra_tb=["python 3 stdlib (int/str formatting, base64, datetime, re) as oracle"])
     proof_broken = (not cres["ok"]) or bool(bad)
 
